@@ -42,7 +42,8 @@ fn configs(tier: Tier) -> Vec<SysCfg> {
         tail_events: 40,
         max_events: 60,
     };
-    let mut v = vec![base.clone()];
+    // old8-batch4: the lowest stored header is exactly the newest out-of-window one
+    let mut v = vec![base.clone(), SysCfg { name: "old8-batch4", old_upto: 8, ..base.clone() }];
     if tier == Tier::Thorough {
         v.push(SysCfg { name: "old9-batch3", old_upto: 9, batch: 3, ..base.clone() });
         v.push(SysCfg { name: "old6-batch4-prefilled-5-8", prefill: Some(5..=8), ..base });
@@ -78,7 +79,7 @@ fn main() {
         &ctx,
         rep,
         Spec {
-            rule: "E3 envdfs on the real Syncer+InMemoryStore+mocked P2p (paused clock): all environment choice sequences with <= 3 (quick) / <= 4 (thorough) non-default choices, default = honest full answer to the oldest request / reconnect / run init timers / stop when idle; menu per step = {answer: honest, all-but-last prefix, first only, header-ex error} x {header-sub next head, skip one} x {prune any stored height older than the sampling window} x {disconnect, reconnect} x {61 s pass}; configs: old6-batch4 (heights 1..6 old, head 16, batch 4) [+ old9-batch3, old6-batch4-prefilled-5-8 at bound-1 in thorough]; horizon 40 default-only events after the last deviation, 60 events absolute; an evaluation = one complete execution, a transition = one environment event followed by the oracles; states = distinct property-level observation traces",
+            rule: "E3 envdfs on the real Syncer+InMemoryStore+mocked P2p (paused clock): all environment choice sequences with <= 3 (quick) / <= 4 (thorough) non-default choices, default = honest full answer to the oldest request / reconnect / run init timers / stop when idle; menu per step = {answer: honest, all-but-last prefix, first only, header-ex error} x {header-sub next head, skip one} x {prune any stored height older than the sampling window} x {disconnect, reconnect} x {61 s pass}; configs: old6-batch4 (heights 1..6 old, head 16, batch 4) at the full bound, old8-batch4 at bound-1 [+ old9-batch3, old6-batch4-prefilled-5-8 at bound-1 in thorough]; horizon 40 default-only events after the last deviation, 60 events absolute; an evaluation = one complete execution, a transition = one environment event followed by the oracles; states = distinct property-level observation traces",
             assumptions: &[
                 "Time::now() is not seamed: header times are >= 2 h away from the sampling-window edge, so wall-clock progress during the run cannot change a verdict; the exact boundary instant is not checked",
                 "the mock sits behind the header-ex client: answers are contiguous runs of individually valid headers starting at the requested height",
